@@ -294,7 +294,7 @@ pub fn c06_state_points_step_l3() {
 /// The borrowed-pointer scratch buffer is empty again when `point_split` returns, on the Ok and
 /// on the Err path, and the closure sees exactly the slices that were passed in.
 #[kani::proof]
-#[kani::unwind(6)]
+#[kani::unwind(10)]
 pub fn c11_point_split_cleared() {
     let mut st = small_state();
     let bytes: [u8; 6] = kani::any();
